@@ -104,7 +104,7 @@ pub const SKIP_KNOWN_F2: bool = true;
 /// non-contiguous AdjacencyMap (`empty(1); add_arc(0, 1000)`) reports such
 /// ids: undefined behaviour. While true, the C13 hostile-argument search runs
 /// traversals from VALID sources on contiguous vertex sets only.
-pub const SKIP_KNOWN_F3: bool = true;
+pub const SKIP_KNOWN_F3: bool = false; // repaired by fix dc28791: the successor id is checked, the traversal panics
 
 /// F6 (C11/C12): AdjacencyMap complement / converse / is_semicomplete /
 /// is_tournament treat vertex ids as positions when the vertex set is not
